@@ -242,6 +242,8 @@ C04_OK(cfg, in, o) ==
           o.assertions[i].flag => (~cfg.skip /\ \E j \in DirectKids(in) : Ident(in.kids[j].c) = o.assertions[i].c /\ OwnSigned(in.kids[j]))
    /\ (o.res = "accept" /\ ~cfg.skip /\ ~o.rflag) => \A i \in DOMAIN o.assertions : o.assertions[i].flag
    /\ (o.info.res = "accept") => (o.info.iflag = o.rflag)
+   \* every field returned equals the field of an element that was presented: what comes back is one of the contents
+   /\ (o.res = "accept") => \A i \in DOMAIN o.assertions : o.assertions[i].c # "unknown"
 
 C07_OK(cfg, in, o) ==
    (o.res = "accept" /\ ~cfg.skip) =>
